@@ -6,6 +6,7 @@ package c14
 
 import (
 	"fmt"
+	"io"
 	"os"
 	"path/filepath"
 	"sort"
@@ -186,6 +187,148 @@ func body(k cfg) func(c *drv.Ctx) {
 	}
 }
 
+// ---- slow backup of an index that was created by the offline Builder (its first segment's file
+// name is not derived from its segment id), taken on a root that is never persisted under its own
+// epoch (unsafe batches), while merges retire the segments it still has to copy and old epochs are purged.
+
+type gatedDir struct {
+	bleve.FileSystemDirectory
+	parked  chan int
+	release chan int
+	first   bool
+}
+
+func (g *gatedDir) GetWriter(p string) (io.WriteCloser, error) {
+	if !g.first {
+		g.first = true
+		vrt.Send(g.parked, 1)
+		vrt.Recv(g.release)
+	}
+	return g.FileSystemDirectory.GetWriter(p)
+}
+
+var builderDocs = lww.Batch{I("x0", 1), I("x1", 2)}
+
+func modelBuilder(q int) *lww.Model {
+	m := lww.New()
+	m.Apply(builderDocs)
+	for j := 0; j < q; j++ {
+		m.Apply(workload[j])
+	}
+	return m
+}
+
+func bodySlowBuilder(useBuilder bool) func(c *drv.Ctx) {
+	return func(c *drv.Ctx) {
+		src := c.Dir + "/src"
+		conf := map[string]interface{}{"scorchMergePlanOptions": bx.CopyConfig(bx.AggressiveMergePlan), "numSnapshotsToKeep": 1, "unsafe_batch": true}
+		parked := make(chan int, 1)
+		release := make(chan int, 1)
+		start := make(chan int, 1)
+		var idx bleve.Index
+		var cerr error
+		lo, hi := 0, 0
+		acked, submitted := 0, 0
+		var wg vrt.WaitGroup
+		wg.Add(1)
+		vrt.Go(func() { // created before the index: outruns scorch's own goroutines in the default schedule
+			defer wg.Done()
+			vrt.Recv(start)
+			lo = acked
+			g := &gatedDir{FileSystemDirectory: bleve.FileSystemDirectory(c.Dir + "/dst"), parked: parked, release: release}
+			cerr = idx.(bleve.IndexCopyable).CopyTo(g)
+			hi = submitted
+		})
+		vrt.Free(func() {
+			var err error
+			if useBuilder {
+				os.MkdirAll(c.Dir+"/build", 0o755)
+				b, err := bleve.NewBuilder(src, bleve.NewIndexMapping(), map[string]interface{}{"buildPathPrefix": c.Dir + "/build"})
+				if err != nil {
+					panic(err)
+				}
+				for _, o := range builderDocs {
+					if err := b.Index(o.ID, lww.Versions[o.V]); err != nil {
+						panic(err)
+					}
+				}
+				if err := b.Close(); err != nil {
+					panic(err)
+				}
+				idx, err = bleve.OpenUsing(src, conf)
+				if err != nil {
+					panic(err)
+				}
+			} else {
+				idx, err = bleve.NewUsing(src, bleve.NewIndexMapping(), scorch.Name, scorch.Name, conf)
+				if err != nil {
+					panic(err)
+				}
+				if err := lww.ExecBatch(idx, builderDocs); err != nil {
+					panic(err)
+				}
+			}
+			vrt.WaitIdle()
+		})
+		do := func(j int) {
+			b := idx.NewBatch()
+			lww.Fill(b, workload[j-1])
+			b.SetPersistedCallback(func(err error) {
+				if err == nil && j > acked {
+					acked = j
+				}
+			})
+			submitted = j
+			if err := idx.Batch(b); err != nil {
+				c.Fail("error:batch", "Batch: %v", err)
+			}
+		}
+		do(1)
+		vrt.Send(start, 1)
+		vrt.Recv(parked) // the backup holds its copy reader and is parked before its first file
+		do(2)
+		vrt.WaitIdle()
+		do(3)
+		vrt.WaitIdle()
+		do(4)
+		vrt.WaitIdle()
+		for round := 0; round < 2; round++ {
+			idx.SetInternal([]byte("tick"), []byte(strconv.Itoa(round)))
+			vrt.WaitIdle()
+		}
+		c.Observe(fmt.Sprintf("files=%d", len(zapFiles(filepath.Join(src, "store")))))
+		vrt.Send(release, 1)
+		wg.Wait()
+		vrt.Free(func() {
+			if cerr != nil {
+				c.Fail("copyto-error", "the slow backup failed: %v — a segment file needed by the copy was removed before the copy ended", cerr)
+			} else if ci, err := bleve.Open(c.Dir + "/dst"); err != nil {
+				c.Fail("copy-does-not-open", "the backup does not open: %v", err)
+			} else {
+				v, _ := ci.GetInternal([]byte("seq"))
+				q := 0
+				if v != nil {
+					q, _ = strconv.Atoi(string(v))
+				}
+				if bad := modelBuilder(q).Check(ci, append([]string{"x0", "x1"}, ids...), keys); len(bad) > 0 {
+					c.Fail("copy-not-a-whole-batch-state", "backup claims batch %d but: %s", q, strings.Join(bad, "; "))
+				}
+				if q < lo || q > hi {
+					c.Fail("copy-outside-window", "backup is at batch %d, outside [%d acknowledged before it began, %d submitted when it ended]", q, lo, hi)
+				}
+				c.Observe(fmt.Sprintf("copy@%d", q))
+				ci.Close()
+			}
+			if bad := modelBuilder(4).Check(idx, append([]string{"x0", "x1"}, ids...), keys); len(bad) > 0 {
+				c.Fail("source-affected", "source after the backup: %s", strings.Join(bad, "; "))
+			}
+			if err := idx.Close(); err != nil {
+				c.Fail("error:close", "Close: %v", err)
+			}
+		})
+	}
+}
+
 var aggressive1 = map[string]interface{}{"scorchMergePlanOptions": bx.AggressiveMergePlan, "numSnapshotsToKeep": 1}
 var unsafeAgg = map[string]interface{}{"scorchMergePlanOptions": bx.AggressiveMergePlan, "numSnapshotsToKeep": 1, "unsafe_batch": true}
 
@@ -199,6 +342,8 @@ func Scenarios() []drv.Scenario {
 	return []drv.Scenario{
 		mk(cfg{name: "copy-after-batch1", copies: 1, startAt: 1, batches: 3, conf: aggressive1}, d1r, d2),
 		mk(cfg{name: "copy-from-start-unsafe", copies: 1, startAt: 0, batches: 3, conf: unsafeAgg}, d1r, d2),
+		{Name: "slow-backup-of-builder-made-index", Body: bodySlowBuilder(true), Quick: d1r, Thorough: d2, Class: "backup", MaxSteps: 1500000},
+		{Name: "slow-backup-unsafe", Body: bodySlowBuilder(false), Quick: d1r, Thorough: d2, Class: "backup", MaxSteps: 1500000},
 		mk(cfg{name: "two-copies-after-batch1", copies: 2, startAt: 1, batches: 4, conf: aggressive1}, nil, d1),
 		mk(cfg{name: "copy-after-batch2", copies: 1, startAt: 2, batches: 4, conf: aggressive1}, nil, d1),
 	}
